@@ -203,6 +203,7 @@ def units():
                          ('begin__v_c', ['C03', 'C20']), ('end__v_c', ['C03', 'C20']), ('clear__v', ['C03', 'C02']), ('extract__rE', ['C03', 'C02', 'C19']),
                          ('erase__pE', ['C03', 'C02', 'C09', 'C19']), ('erase__pE_pE', ['C03', 'C02', 'C09', 'C19']), ('extract__pE', ['C03', 'C02', 'C19']),
                          ('insert__rr%s__node_type' % FS, ['C03', 'C02', 'C09', 'C12', 'C19']), ('insert__pE_rr%s__node_type' % FS, ['C03', 'C02', 'C09', 'C12', 'C19']),
+                         ('emplace__rri32', ['C03', 'C02', 'C09', 'C12', 'C19']), ('emplace_hint__pE_rri32', ['C03', 'C02', 'C09', 'C12', 'C19']),
                          ('swap__r' + FS, ['C03', 'C02', 'C06', 'C07']), ('ctor__v', ['C03', 'C02', 'C06']), ('ctor__rA', ['C03', 'C02', 'C06']), ('ctor__rGhostCmp_rA', ['C03', 'C02', 'C06']),
                          ('dtor__v', ['C02', 'C06']), ('reserve__' + fsz, ['C03', 'C07', 'C18']), ('shrink_to_fit__v', ['C03', 'C18']), ('capacity__v_c', ['C03', 'C20']),
                          ('max_size__v_c', ['C03', 'C20']), ('key_comp__v_c', ['C03', 'C20']), ('value_comp__v_c', ['C03', 'C20'])]:
@@ -215,8 +216,11 @@ def units():
             us[-1]['cfg'] = 'sets17'
             us[-1]['defs']['WITH_SETS'] = '1'
             us[-1]['defs']['FS_T'] = 'struct ' + FS
-            if m.startswith('insert__pE'):
+            if m.startswith(('insert__pE', 'emplace_hint')):
                 us[-1]['cases'] = ['g_has && HINT_A', 'g_has && !HINT_A', '!g_has && HINT_A']
+            if m.startswith('emplace'):
+                us[-1]['defs']['KEY_FLOATING'] = '1'
+                us[-1]['throws_reachable'] = True
     # ---- SmallSet<E, 4, GhostCmp, A, SetType>: inline FixedCapacityVector (FL_STATIC, u8) + abstract set (SetSpec)
     SS = 'SmallSet_E_4_GhostCmp_A_FlatSet_E_GhostCmp_A_Vector_E_A_u32_Dyn_0'
     FF = SS + '___FindFunctor_ElemNR'
